@@ -862,9 +862,63 @@ fn format_cases(n: usize, ty: i128, full: bool) {
     }
 }
 
+/// `--bomb` (a C05 run): deserialising drop-tracked elements from an unhinted scripted source that turns out too short,
+/// too long, or faulty at some position -- so that the elements already read are torn down inside the call -- while the
+/// destructor of ONE of them panics.  Direct oracle: no identity is released twice (leaks are allowed by C05), whatever
+/// the crate does between reading and rejecting.   CASE [-5, N, m, fault (-9 none), bomb]   OBS [outcome, drops]
+fn bomb_cases() {
+    fn one<N: ArrayLength>(n: usize, m: usize, fault: i128, bomb: i64) {
+        emit_case(&[-5, n as i128, m as i128, fault, bomb as i128]);
+        let mut items: Vec<i128> = (0..m as i128).collect();
+        let mut tail = -2;
+        if fault >= 0 && (fault as usize) < m {
+            items[fault as usize] = -3; // an element of the wrong type at that position
+        } else if fault >= 0 {
+            tail = -1; // the source itself fails after the m items
+        }
+        let sc = Script { h0: -1, mode: 0, p: 0, tail, items };
+        let ctl = Ctl::default();
+        track::reset(1_000_000);
+        track::arm_drop(if bomb >= 0 { Some(bomb) } else { None });
+        let res = catch(std::panic::AssertUnwindSafe(|| GenericArray::<TrD, N>::deserialize(ScriptDe { sc: &sc, ctl: &ctl }).map_err(|e| e.to_string())));
+        let outcome = match res {
+            Ok(Ok(arr)) => {
+                let r = catch(std::panic::AssertUnwindSafe(move || drop(arr)));
+                if r.is_ok() { 1 } else { 7 }
+            }
+            Ok(Err(_)) => 0,
+            Err(_) => 6,
+        };
+        track::arm_drop(None);
+        let drops = track::drops_sorted(&track::log_from(0));
+        emit_obs(&[outcome, drops.len() as i128]);
+        for w in drops.windows(2) {
+            if w[0] == w[1] {
+                emit_oracle(&format!("N = {}, {} items offered, fault {}, destructor of {} panics: element {} released twice", n, m, fault, bomb, w[0]));
+                break;
+            }
+        }
+    }
+    for n in [1usize, 2, 3, 5] {
+        for m in [n.saturating_sub(1), n, n + 1, n + 2] {
+            for fault in [-9i128, 0, (n as i128) - 1, n as i128, m as i128] {
+                for bomb in -1..(m.min(n + 1) as i64) {
+                    dist("bomb");
+                    harness::dispatch_len!(n, [U1, U2, U3, U5], |N| one::<N>(n, m, fault, bomb), panic!("length"));
+                }
+            }
+        }
+    }
+    flush_dist();
+}
+
 fn main() {
     let a = args();
     quiet_panics();
+    if a.extra.iter().any(|x| x == "--bomb") {
+        bomb_cases();
+        return;
+    }
     if let Some(c) = a.replay {
         do_case(c);
         return;
